@@ -1,7 +1,7 @@
 (* Proofs about the retry loop family, for every configuration accepted by `cfg_good`,
    all attempts : Z, all exception predicates, all (infinite) outcome streams.          *)
 From Coq Require Import List ZArith Bool Lia Arith.
-From PV Require Import Base.Exn Model.RetrySem Spec.RetrySpec.
+From PV Require Import Base.Exn Model.RetrySem Model.RetryGroups Spec.RetrySpec.
 Import ListNotations.
 Open Scope Z_scope.
 
@@ -220,3 +220,51 @@ Section Good.
     cbn [Nat.add]. destruct (stops listed (outs (Z.to_nat (attempts - 1)))); reflexivity.
   Qed.
 End Good.
+
+(* ---- exception groups: the object-level statement reduces to the class-level one ---------- *)
+Section Groups.
+  Variable listed : exn -> bool.
+  Variable xouts : nat -> xoc.
+
+  Definition proj : nat -> oc := fun i => oc_of (xouts i).
+
+  Lemma stops_proj o : stops listed (oc_of o) = stops_x listed o.
+  Proof. destruct o; reflexivity. Qed.
+
+  Lemma first_stop_proj k : first_stop_x listed xouts k -> first_stop listed proj k.
+  Proof.
+    intros [H1 H2]. split; unfold proj.
+    - now rewrite stops_proj.
+    - intros j Hj. rewrite stops_proj. now apply H2.
+  Qed.
+
+  Lemma never_stops_proj : never_stops_x listed xouts -> never_stops listed proj.
+  Proof. intros H j. unfold proj. rewrite stops_proj. apply H. Qed.
+
+  Lemma find_stop_proj : forall n i, find_stop listed proj n i = find_stop_x listed xouts n i.
+  Proof.
+    induction n as [|n IH]; intro i; cbn [find_stop find_stop_x]; [reflexivity|].
+    unfold proj at 1. rewrite stops_proj, IH. reflexivity.
+  Qed.
+
+  Lemma spec_calls_exec_proj attempts :
+    spec_calls_exec attempts listed proj = spec_calls_exec_x attempts listed xouts.
+  Proof. unfold spec_calls_exec, spec_calls_exec_x. now rewrite find_stop_proj. Qed.
+End Groups.
+
+(* the loop reads the outcome stream pointwise *)
+Lemma loop_ext cfg attempts listed (o1 o2 : nat -> oc) :
+  (forall i, o1 i = o2 i) ->
+  forall fuel a i tr, loop cfg attempts listed o1 fuel a i tr = loop cfg attempts listed o2 fuel a i tr.
+Proof.
+  intros H. induction fuel as [|fuel IH]; intros a i tr; cbn [loop]; [reflexivity|].
+  rewrite H. destruct (cmp_eval (rc_cmp cfg) a attempts); [|reflexivity].
+  destruct (o2 i) as [|e]; [reflexivity|].
+  destruct (catches cfg listed e); [|reflexivity].
+  destruct (run_handler (rc_handler cfg) a (tr ++ [ECall (rc_try_fwd cfg)])) as [[a'| |a'|] tr2]; try reflexivity.
+  apply IH.
+Qed.
+
+Lemma retry_run_ext cfg attempts listed (o1 o2 : nat -> oc) :
+  (forall i, o1 i = o2 i) -> retry_run cfg attempts listed o1 = retry_run cfg attempts listed o2.
+Proof. intro H. unfold retry_run. now apply loop_ext. Qed.
